@@ -1,9 +1,30 @@
 """Which engine families decide which property. (engine, family[, "thorough"])"""
 
 TB_COMMON = [
-    "rustc (nightly, repo toolchain) front end: MIR dump / monomorphisation of the generic code",
-    "p = 2^64-2^32+1 is prime (Pratt certificate checked at start-up)",
-    "SMT solvers z3 5.1.0 (primary), z3 4.8.12 / cvc5 1.0 (cross-check)",
+    "rustc (repo nightly toolchain): monomorphisation of the real generic code at the term-recording field SymF / MIR dump",
+    "p = 2^64-2^32+1 is prime; GF(p) is a field (zero-product law instances, denominators non-zero)",
+    "encoder: hash-consed term arena + canonical fraction normal form over GF(p) (symf/src/poly.rs) + SMT-LIB emission",
+    "SMT solver z3 5.1.0 (primary), z3 4.8.12 and cvc5 1.0 (cross-check of unsat answers)",
 ]
 
-REG = {}
+REG = {
+    "C07": {
+        "families": [("S", "gates")],
+        "explanation": (
+            "Bounded symbolic verification of mechanisms (DESIGN.md section 5, C07). The real Gate impls are executed "
+            "over a term-recording field: (7.1) each gate's own generators() fill a one-row PartitionWitness from symbolic "
+            "inputs and eval_unfiltered on that row must be 0 for all inputs; (7.2) for every generator-written wire, "
+            "row[w]+=delta with all constraints 0 implies delta=0 (solver query with the zero-product law); (7.3) "
+            "eval_unfiltered_base_batch (batch 1 and 3) and the circuit built by eval_unfiltered_circuit (real builder, "
+            "real generate_partial_witness) equal eval_unfiltered on fully symbolic rows, with the declared constraint "
+            "count. Integer-valued gate inputs (limb sums, power bits, access indices, swap flag) are enumerated "
+            "concretely; everything else ranges over all field values. sat models are replayed natively on "
+            "GoldilocksField through the same generic harness code."),
+        "trusted_base": TB_COMMON,
+        "assumptions": [
+            "gate parameterisations as listed per obligation (bounds field); other parameter values are outside the claim",
+            "LookupGate / LookupTableGate have no gate constraints (pinned by the lookup argument, C08) and are not in C07's run",
+            "declared degree() is not checked in this run",
+        ],
+    },
+}
